@@ -7,8 +7,8 @@ EXPLANATION = (
     "obligations, each decided on the text the encoder emits in every case (grouping x enclosing context x position x "
     "token shape, extracted by evaluating the THIR of encode/compile; nothing is run): (leaf) `/` emits exactly one "
     "separator, `?`/`*`/`$` and both class forms emit separator-free languages of the right length, a literal emits only "
-    "its regex-escaped text under an explicit case flag; (tree) the tree-wildcard fragment equals the reference language "
-    "R(left neighbour, right neighbour, rooted) over {SEP, NL, OTHER} in every reachable context; (flag) every class is "
+    "its regex-escaped text (any flag it sets itself is its own); (tree) the tree-wildcard fragment equals the reference language "
+    "R(left neighbour, right neighbour, rooted) over {SEP, NL, OTHER} in every reachable context; (flag) in whole patterns of every nesting the case flag in force at each literal is the literal's own, and every class is "
     "compiled with the case-insensitive flag known off; (dotall) every `.` is compiled with dot-all on; (homo) alternation "
     "= union of all branches in place, repetition = body{m,n} with the token's own bounds, concatenation in order; "
     "(anchor/delegate) the pattern is ^...$ and both Program impls match with the program compiled from their own tree.")
